@@ -12,12 +12,14 @@ def progsOf (sink : String) : List (List Instr) :=
 def progOf (sink : String) : Rec → List Instr := sinkProg (progsOf sink)
 
 def sevMode (t k mode : Nat) : Nat :=
+  if mode = 9 then (if t = 0 then 6 else 2) else    -- 6: logged at info, with a payload longer than a page
   if mode = 8 then 2 else
   if mode ≤ 5 then mode else if mode = 6 then (5 * t + k) % 6 else (if t = 0 then 5 else k % 5)
 
 /-- record k of thread t: [t+1, k+1, sev+1, payload…, 0]; payload length varies with (t, k) -/
 def record (mode t k : Nat) : Rec :=
-  [t + 1, k + 1, sevMode t k mode + 1] ++ List.replicate ((t * 7 + k * 3) % 9) (((t + k) % 200) + 1) ++ [0]
+  let payload := if sevMode t k mode ≥ 6 then 4090 + (t * 7 + k * 3) % 20 else (t * 7 + k * 3) % 9
+  [t + 1, k + 1, sevMode t k mode + 1] ++ List.replicate payload (((t + k) % 200) + 1) ++ [0]
 
 /-- mode 8: every statement's operand is a callable that logs a record of its own first — for the sink
 that is two records per statement, the inner one complete before the outer one starts -/
@@ -93,7 +95,7 @@ def model (f : List String) : String :=
     match n.toNat?, r.toNat?, mode.toNat?, seed.toNat? with
     | some n, some r, some mode, some seed =>
       let prog := progOf sink
-      let (s, c) := simulate prog n (n * n * recCount mode r * 60 + 2000) seed (init (recsOf mode n r)) false
+      let (s, c) := simulate prog n (n * n * recCount mode r * 60 + 2000 + (if mode = 9 then n * n * r * 15000 else 0)) seed (init (recsOf mode n r)) false
       verdict mode n r s.out c
     | _, _, _, _ => "bad-op"
   | _ => "bad-op"
